@@ -295,6 +295,8 @@ func init() {
 		t.Invalidate()
 		return c.blockWith([]*refchain.Tx{t}, 0, chainsim.BlockSpec{})
 	})
+	reg("weight/4000001-with-witness", "C05", []string{"bad-blk-weight"}, func(c *ctx) *refchain.Block { return weightWitnessBlock(c, 4000001) })
+	reg("valid/weight-4000000-with-witness", "C05", valid, func(c *ctx) *refchain.Block { return weightWitnessBlock(c, 4000000) })
 	reg("weight/4000004", "C05", []string{"bad-blk-weight"}, func(c *ctx) *refchain.Block { return weightBlock(c, 4000004) })
 	reg("weight/4000000-valid", "C05", valid, func(c *ctx) *refchain.Block { return weightBlock(c, 4000000) })
 	// valid neighbours (they extend the chain)
@@ -756,6 +758,47 @@ func weightBlock(c *ctx, target int) *refchain.Block {
 		d := target - b.Weight()
 		if d == 0 {
 			return b
+		}
+		pad += d / 4
+	}
+	return nil
+}
+
+// weightWitnessBlock hits an exact block weight that is not a multiple of 4: the coinbase carries a
+// large unspendable output (4 weight units per byte) and a witness commitment, a transaction created
+// in the block pays to P2WSH(<push n bytes> OP_DROP OP_1) and the next one spends it, so the witness
+// script length n tunes the weight in single units.
+func weightWitnessBlock(c *ctx, target int) *refchain.Block {
+	if !c.segwit {
+		return nil
+	}
+	ops, cs := c.take(1)
+	if ops == nil || cs[0].Value < 20000 {
+		return nil
+	}
+	mk := func(pad, n int) *refchain.Block {
+		ws := append([]byte{0x4d, byte(n), byte(n >> 8)}, make([]byte, n)...)
+		ws = append(ws, 0x75, 0x51)
+		h := sha256.Sum256(ws)
+		setup := c.g.Spend(ops, cs, []refchain.TxOut{{Value: 5000, Script: append([]byte{0x00, 0x20}, h[:]...)}, c.g.OutTrue(cs[0].Value - 6000)}, 1, 0, nil, -1)
+		spend := &refchain.Tx{Version: 1, In: []refchain.TxIn{{Prev: refchain.OutPoint{Hash: setup.TxID(), Idx: 0}, Sequence: 0xffffffff, Witness: [][]byte{ws}}},
+			Out: []refchain.TxOut{c.g.OutTrue(4000)}}
+		scr := make([]byte, pad)
+		scr[0] = 0x6a
+		outs := []refchain.TxOut{{Value: refchain.Subsidy(c.height), Script: []byte{0x51}}, {Value: 0, Script: scr}}
+		return c.blockWith([]*refchain.Tx{setup, spend}, 2000, chainsim.BlockSpec{CoinbaseOuts: outs})
+	}
+	pad, n := 900000, 300
+	for try := 0; try < 8; try++ {
+		b := mk(pad, n)
+		d := target - b.Weight()
+		if d == 0 {
+			return b
+		}
+		r := ((d % 4) + 4) % 4
+		if r != 0 && n+r < 500 {
+			n += r // single weight units through the witness script length
+			continue
 		}
 		pad += d / 4
 	}
